@@ -6,6 +6,7 @@ use std::cmp::Ordering;
 mod apath_ops;
 mod backupops;
 mod diffops;
+mod formatscan;
 mod gcops;
 mod localops;
 mod raceops;
